@@ -81,9 +81,12 @@ class Builder:
         if cls == 'CoordinateShiftOperation':
             return so.CoordinateShiftOperation(list(q), time_shift=c.get('args', [1, 0])[0], space_shift=c.get('args', [1, 0])[1])
         if cls == 'DetectorOperation':
-            return so.DetectorOperation(q[0], last_acquisition_index=1, main_target=0, **kw)
+            a = c.get('args') or [1, 0, None, None, None]
+            return so.DetectorOperation(q[0], last_acquisition_index=a[0], main_target=a[1], secondary_target=a[2], reference_offset=a[3],
+                                        secondary_offset=a[4], **kw)
         if cls == 'LogicalObservableOperation':
-            return so.LogicalObservableOperation(q[0], last_acquisition_index=1, main_target=0, **kw)
+            a = c.get('args') or [1, 0]
+            return so.LogicalObservableOperation(q[0], last_acquisition_index=a[0], main_target=a[1], **kw)
         raise ValueError(cls)
 
     def build(self, prog, reps=1, top=True):
@@ -123,6 +126,23 @@ def rel_of(op):
     return out
 
 
+import dataclasses
+SKIP_FIELDS = ('relation', 'duration_strategy', 'acquisition_strategy')
+
+
+def field_sig(op):
+    """canonical text of the operation's own init-able public fields (class-specific arguments such as detector targets)"""
+    if not dataclasses.is_dataclass(op):
+        return ''
+    parts = []
+    for f in dataclasses.fields(op):
+        if not f.init or f.name.startswith('_') or f.name in SKIP_FIELDS:
+            continue
+        v = getattr(op, f.name)
+        parts.append(f"{f.name}={getattr(v, 'name', v)!r}")
+    return ';'.join(parts)
+
+
 def observe(circuit, top_entries=None):
     ops = circuit.operations
     pos = {id(o): i for i, o in enumerate(ops)}
@@ -132,7 +152,7 @@ def observe(circuit, top_entries=None):
         if r is not None:
             r['ref_pos'] = pos.get(r.pop('ref_id'), -2 if r['comp'] else -1)     # -2: referent is a sub-circuit; -1: not listed at all
         e = {'cls': type(o).__name__, 'ch': [[c.id, c.channel.name] for c in o.channel_identifiers],
-             's': ticks(o.start_time), 'e': ticks(o.end_time), 'd': ticks(o.duration), 'rel': r}
+             's': ticks(o.start_time), 'e': ticks(o.end_time), 'd': ticks(o.duration), 'rel': r, 'sig': field_sig(o)}
         if top_entries and id(o) in top_entries:
             e['cmd'] = top_entries[id(o)]
         if hasattr(o, 'acquisition_tag'):
